@@ -813,6 +813,312 @@ def translate_wellknown(repo=REPO):
             f"  let {var} := {t}\n  (List.elem {var} wellknown_dav_paths)\n")
 
 
+# ---------------------------------------------------------------------------
+# GitStore.iter_changes: a generator that diffs two listings through a dict
+#
+# The two `self.iter_with_etag(<ctag>)` calls become the list parameters `olds` / `news`; the prologue that
+# materialises the empty tree for `old_ctag is None` is checked for its shape and left to the model
+# (`Store.iterChanges`).  Everything from the dict comprehension on is translated statement by statement:
+# `yield` appends to the output, `previous[name]` / `del previous[name]` are `Py.Dict.get` / `Py.Dict.del`
+# (KeyError as a value), `assert` raises AssertionError, so the function lives in `Except PyErr`.
+
+class DG:
+    def __init__(self):
+        self.types = {}      # python name -> sym | osym
+
+
+def dg_expr(e, cx):
+    """-> (text, type) with type in sym, osym, none, bool"""
+    if isinstance(e, ast.Constant) and e.value is None:
+        return ("none", "none")
+    if isinstance(e, ast.Name):
+        if e.id not in cx.types:
+            raise Untranslatable(f"unknown name {e.id}")
+        return (e.id, cx.types[e.id])
+    if isinstance(e, ast.Compare) and len(e.ops) == 1:
+        a, aty = dg_expr(e.left, cx)
+        b, bty = dg_expr(e.comparators[0], cx)
+        op = e.ops[0]
+        if isinstance(op, (ast.Is, ast.IsNot)) and bty == "none" and aty == "osym":
+            return (f"(Option.{'isNone' if isinstance(op, ast.Is) else 'isSome'} {a})", "bool")
+        if isinstance(op, (ast.Eq, ast.NotEq)):
+            def lift(t, ty):
+                return t if ty == "osym" else ("none" if ty == "none" else f"(some {t})")
+            if aty == bty == "sym":
+                body = f"({a} == {b})"
+            elif "bool" in (aty, bty):
+                raise Untranslatable("comparison of a bool")
+            else:
+                body = f"({lift(a, aty)} == ({lift(b, bty)} : Option String))"
+            return (body if isinstance(op, ast.Eq) else f"(!{body})", "bool")
+    if isinstance(e, ast.BoolOp):
+        parts = [dg_expr(v, cx) for v in e.values]
+        if any(t != "bool" for _, t in parts):
+            raise Untranslatable("and/or operand")
+        return ("(" + (" && " if isinstance(e.op, ast.And) else " || ").join(t for t, _ in parts) + ")", "bool")
+    if isinstance(e, ast.UnaryOp) and isinstance(e.op, ast.Not):
+        t, ty = dg_expr(e.operand, cx)
+        if ty != "bool":
+            raise Untranslatable("not operand")
+        return (f"(!{t})", "bool")
+    raise Untranslatable(f"generator expression {ast.dump(e)[:70]}")
+
+
+def dg_row(e, cx):
+    """the yielded 4-tuple as a ChangeRow"""
+    if not (isinstance(e, ast.Tuple) and len(e.elts) == 4):
+        raise Untranslatable("yield of something that is not a 4-tuple")
+    out = []
+    for k, el in enumerate(e.elts):
+        t, ty = dg_expr(el, cx)
+        if k < 2:
+            if ty != "sym":
+                raise Untranslatable("name / content type slot")
+            out.append(t)
+        else:
+            out.append(t if ty == "osym" else ("none" if ty == "none" else f"some {t}") if ty in ("sym", "none") else None)
+            if out[-1] is None:
+                raise Untranslatable("etag slot")
+    return "(" + ", ".join(out) + ")"
+
+
+def dg_stmts(stmts, cx, indent, at_end, dictvar):
+    pad = "  " * indent
+    if not stmts:
+        return pad + at_end
+    s, rest = stmts[0], stmts[1:]
+    if isinstance(s, ast.Try):
+        # try: (a, b) = d[k]   except KeyError: b = None   else: assert ...
+        if not (len(s.body) == 1 and isinstance(s.body[0], ast.Assign) and isinstance(s.body[0].targets[0], ast.Tuple)
+                and isinstance(s.body[0].value, ast.Subscript) and isinstance(s.body[0].value.value, ast.Name)
+                and s.body[0].value.value.id == dictvar and isinstance(s.body[0].value.slice, ast.Name)
+                and len(s.handlers) == 1 and isinstance(s.handlers[0].type, ast.Name) and s.handlers[0].type.id == "KeyError"
+                and not s.finalbody):
+            raise Untranslatable("try shape")
+        tgt = [t.id for t in s.body[0].targets[0].elts]
+        key = s.body[0].value.slice.id
+        if len(tgt) != 2 or cx.types.get(key) != "sym":
+            raise Untranslatable("dict lookup target")
+        h = s.handlers[0].body
+        if not (len(h) == 1 and isinstance(h[0], ast.Assign) and isinstance(h[0].targets[0], ast.Name)
+                and isinstance(h[0].value, ast.Constant) and h[0].value.value is None and h[0].targets[0].id in tgt):
+            raise Untranslatable("except KeyError body")
+        ovar = h[0].targets[0].id            # the variable that is None when the key is missing
+        saved = dict(cx.types)
+        # except branch: only `ovar` is bound
+        cx.types[ovar] = "osym"
+        exc = dg_stmts(rest, cx, indent + 2, at_end, dictvar)
+        cx.types = dict(saved)
+        for t in tgt:
+            cx.types[t] = "sym"
+        cx.types[ovar] = "osym"
+        body_else = list(s.orelse) + rest
+        els = dg_stmts(body_else, cx, indent + 2, at_end, dictvar)
+        cx.types = saved
+        raw = ", ".join(t if t != ovar else t + "__v" for t in tgt)
+        return (pad + f"(match Py.Dict.get {dictvar} {key} with\n{pad}  | none =>\n{pad}    let {ovar} : Option String := none\n{exc}\n"
+                f"{pad}  | some ({raw}) =>\n{pad}    let {ovar} : Option String := some {ovar}__v\n{els})")
+    if isinstance(s, ast.Assert):
+        t, ty = dg_expr(s.test, cx)
+        if ty != "bool":
+            raise Untranslatable("assert test")
+        return pad + f"(if !{t} then throw (Py.PyErr.raised \"AssertionError\" \"\") else\n{dg_stmts(rest, cx, indent + 1, at_end, dictvar)})"
+    if isinstance(s, ast.If) and not s.orelse:
+        t, ty = dg_expr(s.test, cx)
+        if ty != "bool":
+            raise Untranslatable("if test")
+        thn = dg_stmts(list(s.body) + rest, cx, indent + 1, at_end, dictvar)
+        els = dg_stmts(rest, cx, indent + 1, at_end, dictvar)
+        return pad + f"(if {t} then\n{thn}\n{pad}else\n{els})"
+    if isinstance(s, ast.Expr) and isinstance(s.value, ast.Yield):
+        row = dg_row(s.value.value, cx)
+        return pad + f"let out__ := out__ ++ [{row}]\n{dg_stmts(rest, cx, indent, at_end, dictvar)}"
+    if isinstance(s, ast.Delete) and len(s.targets) == 1 and isinstance(s.targets[0], ast.Subscript) \
+            and isinstance(s.targets[0].value, ast.Name) and s.targets[0].value.id == dictvar \
+            and isinstance(s.targets[0].slice, ast.Name) and cx.types.get(s.targets[0].slice.id) == "sym":
+        return pad + f"(Py.Dict.del {dictvar} {s.targets[0].slice.id} >>= fun {dictvar} =>\n{dg_stmts(rest, cx, indent + 1, at_end, dictvar)})"
+    raise Untranslatable(f"generator statement {type(s).__name__}")
+
+
+def translate_iter_changes(repo=REPO):
+    src = ast.parse(open(os.path.join(repo, "xandikos/store/git.py"), encoding="utf-8").read())
+    cls = next((n for n in src.body if isinstance(n, ast.ClassDef) and n.name == "GitStore"), None)
+    fn = next((n for n in (cls.body if cls else []) if isinstance(n, ast.FunctionDef) and n.name == "iter_changes"), None)
+    if fn is None or [a.arg for a in fn.args.args] != ["self", "old_ctag", "new_ctag"]:
+        raise Untranslatable("GitStore.iter_changes not found / signature changed")
+    body = [b for b in fn.body if not (isinstance(b, ast.Expr) and isinstance(b.value, ast.Constant))]
+    if len(body) != 4:
+        raise Untranslatable(f"iter_changes has {len(body)} top-level statements, 4 expected")
+    pro, comp, loop1, loop2 = body
+    want_pro = ("if old_ctag is None:\n    t = Tree()\n    self.repo.object_store.add_object(t)\n"
+                "    old_ctag = t.id.decode('ascii')")
+    if ast.unparse(pro) != want_pro:
+        raise Untranslatable("prologue (empty tree for old_ctag is None) changed")
+
+    def listing_call(e, arg):
+        return (isinstance(e, ast.Call) and ast.unparse(e.func) == "self.iter_with_etag" and len(e.args) == 1
+                and isinstance(e.args[0], ast.Name) and e.args[0].id == arg and not e.keywords)
+    # previous = {name: (content_type, etag) for (name, content_type, etag) in self.iter_with_etag(old_ctag)}
+    if not (isinstance(comp, ast.Assign) and isinstance(comp.targets[0], ast.Name) and isinstance(comp.value, ast.DictComp)
+            and len(comp.value.generators) == 1 and not comp.value.generators[0].ifs
+            and listing_call(comp.value.generators[0].iter, "old_ctag")):
+        raise Untranslatable("dict comprehension shape")
+    dictvar = comp.targets[0].id
+    g = comp.value.generators[0]
+    gt = [t.id for t in g.target.elts] if isinstance(g.target, ast.Tuple) else None
+    if not gt or len(gt) != 3 or not all(isinstance(t, ast.Name) for t in g.target.elts):
+        raise Untranslatable("comprehension target")
+    k, v = comp.value.key, comp.value.value
+    if not (isinstance(k, ast.Name) and k.id in gt and isinstance(v, ast.Tuple) and len(v.elts) == 2
+            and all(isinstance(x, ast.Name) and x.id in gt for x in v.elts)):
+        raise Untranslatable("comprehension key/value")
+    comp_txt = (f"  let {dictvar} : Py.Dict (String × String) := Py.Dict.ofList (olds.map fun ({', '.join(gt)}) => "
+                f"({k.id}, ({v.elts[0].id}, {v.elts[1].id})))")
+    # loop 1
+    if not (isinstance(loop1, ast.For) and isinstance(loop1.target, ast.Tuple) and len(loop1.target.elts) == 3
+            and all(isinstance(t, ast.Name) for t in loop1.target.elts) and listing_call(loop1.iter, "new_ctag") and not loop1.orelse):
+        raise Untranslatable("first loop shape")
+    cx = DG()
+    t1 = [t.id for t in loop1.target.elts]
+    for t in t1:
+        cx.types[t] = "sym"
+    b1 = dg_stmts(list(loop1.body), cx, 2, f"iter_changes_loop1 rest__ {dictvar} out__", dictvar)
+    # loop 2:  for name, (ct, etag) in previous.items()
+    if not (isinstance(loop2, ast.For) and ast.unparse(loop2.iter) == f"{dictvar}.items()" and isinstance(loop2.target, ast.Tuple)
+            and len(loop2.target.elts) == 2 and isinstance(loop2.target.elts[0], ast.Name)
+            and isinstance(loop2.target.elts[1], ast.Tuple) and len(loop2.target.elts[1].elts) == 2 and not loop2.orelse):
+        raise Untranslatable("second loop shape")
+    cx2 = DG()
+    n2 = loop2.target.elts[0].id
+    v2 = [t.id for t in loop2.target.elts[1].elts]
+    for t in [n2] + v2:
+        cx2.types[t] = "sym"
+    b2 = dg_stmts(list(loop2.body), cx2, 2, "iter_changes_loop2 rest__ out__", dictvar)
+    D = "Py.Dict (String × String)"
+    return (
+        "/-- a listing entry `(name, content_type, etag)` and a yielded row `(name, content_type, old_etag, new_etag)` -/\n"
+        "abbrev Entry := String × String × String\nabbrev ChangeRow := String × String × Option String × Option String\n\n"
+        "/-- first loop of `GitStore.iter_changes`: the entries of the new listing -/\n"
+        f"def iter_changes_loop1 : List Entry → {D} → List ChangeRow → Except Py.PyErr ({D} × List ChangeRow)\n"
+        f"  | [], {dictvar}, out__ => pure ({dictvar}, out__)\n"
+        f"  | ({', '.join(t1)}) :: rest__, {dictvar}, out__ =>\n{b1}\n\n"
+        "/-- second loop: what is left in the dict -/\n"
+        f"def iter_changes_loop2 : {D} → List ChangeRow → Except Py.PyErr (List ChangeRow)\n"
+        "  | [], out__ => pure out__\n"
+        f"  | ({n2}, ({', '.join(v2)})) :: rest__, out__ =>\n{b2}\n\n"
+        "/-- translated from `xandikos/store/git.py::GitStore.iter_changes`; `olds` / `news` are what\n"
+        "    `self.iter_with_etag(old_ctag)` / `self.iter_with_etag(new_ctag)` yield -/\n"
+        "def iter_changes (olds news : List Entry) : Except Py.PyErr (List ChangeRow) :=\n"
+        f"{comp_txt}\n"
+        f"  iter_changes_loop1 news {dictvar} [] >>= fun ({dictvar}, out__) => iter_changes_loop2 {dictvar} out__\n")
+
+
+# ---------------------------------------------------------------------------
+# precondition gates of the request handlers (PUT, DELETE, GET/HEAD)
+#
+# In a handler, the statements `h = request.headers.get("<Header>", None)` and the `if <test>: return
+# Response(status=<412 | 304>)` that follow them form the gate.  The tests are translated (Python's
+# short-circuit and/or/not, truthiness of an Optional[str] header, `etag_matches` = the translated
+# function of Generated/Etag.lean, a `None` passed where it would be dereferenced = AttributeError);
+# the gate is "some test fires", in the handler's order.  Between the first and the last statement of
+# the gate nothing else may occur.
+
+GATES = [
+    dict(lean="put_refuses", file="xandikos/webdav.py", cls="PutMethod", func="handle", status="412"),
+    dict(lean="delete_refuses", file="xandikos/webdav.py", cls="DeleteMethod", func="handle", status="412"),
+    dict(lean="get_not_modified", file="xandikos/webdav.py", cls=None, func="_do_get", status="304"),
+]
+
+
+def gate_expr(e, hdrs):
+    """-> Lean text of type Except PyErr Bool"""
+    if isinstance(e, ast.Name):
+        if e.id in hdrs or e.id == "current_etag":
+            return f"(pure (Py.otruthy {e.id}))"
+        raise Untranslatable(f"gate: unknown name {e.id}")
+    if isinstance(e, ast.Compare) and len(e.ops) == 1 and isinstance(e.ops[0], (ast.Is, ast.IsNot)) \
+            and isinstance(e.left, ast.Name) and (e.left.id in hdrs or e.left.id == "current_etag") \
+            and isinstance(e.comparators[0], ast.Constant) and e.comparators[0].value is None:
+        return f"(pure (Option.{'isNone' if isinstance(e.ops[0], ast.Is) else 'isSome'} {e.left.id}))"
+    if isinstance(e, ast.UnaryOp) and isinstance(e.op, ast.Not):
+        return f"(Py.notM {gate_expr(e.operand, hdrs)})"
+    if isinstance(e, ast.BoolOp):
+        fn = "Py.andM" if isinstance(e.op, ast.And) else "Py.orM"
+        parts = [gate_expr(v, hdrs) for v in e.values]
+        acc = parts[-1]
+        for t in reversed(parts[:-1]):
+            acc = f"({fn} {t} {acc})"
+        return acc
+    if isinstance(e, ast.Call) and isinstance(e.func, ast.Name) and e.func.id == "etag_matches" and len(e.args) == 2 \
+            and not e.keywords and all(isinstance(a, ast.Name) for a in e.args):
+        a, b = e.args[0].id, e.args[1].id
+        if not ((a in hdrs or a == "current_etag") and (b in hdrs or b == "current_etag")):
+            raise Untranslatable("gate: etag_matches arguments")
+        return f"(Py.strArg {a} >>= fun s__ => pure (etag_matches s__ {b}))"
+    raise Untranslatable(f"gate expression {ast.dump(e)[:70]}")
+
+
+def translate_gate(g, repo=REPO):
+    region, hdrs, tests = gate_region(g, repo)
+    want_order = [h for h in ("If-Match", "If-None-Match") if h in hdrs.values()]
+    names = [v for h in want_order for v, hh in hdrs.items() if hh == h]
+    body = "(pure false)"
+    for t in reversed(tests):
+        body = f"({gate_expr(t, hdrs)} >>= fun c__ => if c__ then (pure true) else\n    {body})"
+    params = " ".join(f"({n} : Option (List Char))" for n in names + ["current_etag"])
+    doc = ", ".join(f"`{v}` = {h}" for v, h in hdrs.items())
+    return (f"/-- translated from the precondition gate of `{g['file']}::{(g['cls'] + '.') if g['cls'] else ''}{g['func']}` "
+            f"({doc}): `true` = answered {g['status']} -/\n"
+            f"def {g['lean']} {params} : Except Py.PyErr Bool :=\n  {body}\n")
+
+
+def gate_region(g, repo=REPO):
+    """-> (statements of the gate, {variable: header}, [tests])"""
+    src = ast.parse(open(os.path.join(repo, g["file"]), encoding="utf-8").read())
+    scope = src.body
+    if g["cls"]:
+        cls = next((n for n in src.body if isinstance(n, ast.ClassDef) and n.name == g["cls"]), None)
+        if cls is None:
+            raise Untranslatable(f"class {g['cls']} not found")
+        scope = cls.body
+    fn = next((n for n in scope if isinstance(n, (ast.FunctionDef, ast.AsyncFunctionDef)) and n.name == g["func"]), None)
+    if fn is None:
+        raise Untranslatable(f"{g['func']} not found")
+
+    def header_assign(s):
+        if isinstance(s, ast.Assign) and len(s.targets) == 1 and isinstance(s.targets[0], ast.Name) \
+                and isinstance(s.value, ast.Call) and ast.unparse(s.value.func) == "request.headers.get" \
+                and len(s.value.args) == 2 and isinstance(s.value.args[0], ast.Constant) \
+                and s.value.args[0].value in ("If-Match", "If-None-Match") \
+                and isinstance(s.value.args[1], ast.Constant) and s.value.args[1].value is None:
+            return s.targets[0].id, s.value.args[0].value
+        return None
+
+    def gate_if(s):
+        if isinstance(s, ast.If) and not s.orelse and len(s.body) == 1 and isinstance(s.body[0], ast.Return) \
+                and isinstance(s.body[0].value, ast.Call) and ast.unparse(s.body[0].value.func) == "Response":
+            for kw in s.body[0].value.keywords:
+                if kw.arg == "status" and isinstance(kw.value, ast.Constant) and str(kw.value.value).startswith(g["status"]):
+                    return True
+        return False
+    idx = [k for k, s in enumerate(fn.body) if header_assign(s) or gate_if(s)]
+    if not idx:
+        raise Untranslatable("no gate found")
+    region = fn.body[idx[0]: idx[-1] + 1]
+    hdrs, tests = {}, []
+    for s in region:
+        ha = header_assign(s)
+        if ha:
+            hdrs[ha[0]] = ha[1]
+        elif gate_if(s):
+            tests.append(s.test)
+        else:
+            raise Untranslatable(f"statement inside the gate: {ast.unparse(s)[:60]}")
+    if not tests:
+        raise Untranslatable("gate without a test")
+    return region, hdrs, tests
+
+
 SCAN_SPECS = [
     dict(module="Unescape", file="xandikos/icalendar.py", func="_unescape_text", lean="unescape_text",
          params=[("text", "str"), ("split", "bool")], returns="strlist",
@@ -916,6 +1222,7 @@ HEADER = """/-
 -/
 import Xandikos.Py.Prelude
 import Xandikos.Py.Path
+import Xandikos.Py.Dict
 
 namespace Xandikos.Generated
 open Xandikos
@@ -943,10 +1250,23 @@ def generate(repo=REPO, out_dir=GEN_DIR):
         mods["Wellknown"] = [({"func": "WellknownRedirector.__call__"}, translate_wellknown(repo), None)]
     except (Untranslatable, SyntaxError, KeyError, IndexError, AttributeError, StopIteration) as e:
         mods["Wellknown"] = [({"func": "WellknownRedirector.__call__"}, None, f"{type(e).__name__}: {e}")]
+    try:
+        mods["IterChanges"] = [({"func": "GitStore.iter_changes"}, translate_iter_changes(repo), None)]
+    except (Untranslatable, SyntaxError, KeyError, IndexError, AttributeError, StopIteration) as e:
+        mods["IterChanges"] = [({"func": "GitStore.iter_changes"}, None, f"{type(e).__name__}: {e}")]
+    mods["Gates"] = []
+    for g in GATES:
+        try:
+            mods["Gates"].append(({"func": g["lean"]}, translate_gate(g, repo), None))
+        except (Untranslatable, SyntaxError, KeyError, IndexError, AttributeError, StopIteration) as e:
+            mods["Gates"].append(({"func": g["lean"]}, None, f"{type(e).__name__}: {e}"))
     result = {}
     for mod, items in mods.items():
         errs = [f"{s['func']}: {err}" for s, t, err in items if err]
-        text = HEADER + "\n".join(t for s, t, err in items if t)
+        hdr = HEADER
+        if mod == "Gates":
+            hdr = HEADER.replace("import Xandikos.Py.Dict\n", "import Xandikos.Py.Dict\nimport Xandikos.Generated.Etag\n")
+        text = hdr + "\n".join(t for s, t, err in items if t)
         if mod == "Collation":
             try:
                 text += "\n" + emit_collations(collation_table(repo))
